@@ -118,7 +118,9 @@ class MultilineComment(Comment):
             return result
         else:
             # Single line
-            return f"{opening} {self.text} */"
+            if self.inline:
+                indent = 0
+            return " " * indent + f"{opening} {self.text} */"
 
 
 __all__ = ["Comment", "MultilineComment"]
